@@ -22,6 +22,9 @@ def run(run):
     prog = run.prog
     el = prog.method("escape_line", r"cell_buffer::CellBuffer$")
     cf = prog.method("from", r"cell_buffer::CellBuffer$", r"From<.*StringBuffer>")
+    if cf:
+        # a per-row helper the conversion was split into (`insert_row(y, chars)`) is spliced back
+        prog.inline_single_use_helpers(cf, same_file=True, skip=r"::(escape_line|add_css_styles|insert)$")
     if not el or not cf:
         run.missing("C15", "CellBuffer::escape_line / From<StringBuffer>")
         return
